@@ -45,8 +45,8 @@ func c14Oracle(sp *Spec, x *X, res *mcrt.Result) (string, string) {
 					continue
 				}
 				name := fmt.Sprintf("d%d%c%d", b, "pa"[side], k)
-				if x.Shut[name] != 1 {
-					return "listener-count", fmt.Sprintf("shutdown listener %s (wrapped %d deep) notified %d times", name, d.Depth, x.Shut[name])
+				if x.ShutCount(name) != 1 {
+					return "listener-count", fmt.Sprintf("shutdown listener %s (wrapped %d deep) notified %d times", name, d.Depth, x.ShutCount(name))
 				}
 			}
 		}
@@ -96,7 +96,7 @@ func c14Oracle(sp *Spec, x *X, res *mcrt.Result) (string, string) {
 			}
 		}
 	}
-	if x.Events["leak"] > 0 {
+	if x.EventCount("leak") > 0 {
 		return "leak", strings.Join(x.Notes, "; ")
 	}
 	return "", ""
@@ -219,7 +219,7 @@ func init() {
 					if x.WaitStep == 0 {
 						return "wait-not-returned", "Progress.Wait did not return"
 					}
-					if x.Events["leak"] > 0 {
+					if x.EventCount("leak") > 0 {
 						return "leak", strings.Join(x.Notes, "; ")
 					}
 					return "", ""
